@@ -133,4 +133,19 @@ Dedup(q) == IF q = <<>> THEN <<>>
                  IN IF \E i \in 1..Len(rest) : rest[i] = x THEN rest ELSE Append(rest, x)
 (* inherited-then-own explicit attributes: depth first over the supertypes in declaration order, each once *)
 AttrOrder(s, n) == Dedup(RawOrder(s, n))
+
+(* ------------------------------------------------------------------ the Python module (C18) *)
+(* one class per entity: bases = supertypes in declaration order, constructor parameters = AttrOrder; one *)
+(* definition per defined type                                                                            *)
+PyModule(s) == [classes |-> [i \in 1..Len(s.ents) |->
+                               [name |-> s.ents[i].name, bases |-> s.ents[i].supers,
+                                params |-> [j \in 1..Len(AttrOrder(s, s.ents[i].name)) |-> AttrOrder(s, s.ents[i].name)[j].name]]],
+                types |-> s.types]
+(* Dev_PyCtorRepeatsSharedAncestor: the constructor lists the inherited attributes once per supertype path, so an *)
+(* entity with two supertypes that share an ancestor (a diamond) names the ancestor's attributes twice            *)
+RECURSIVE Ancestors(_, _)
+Ancestors(s, n) == LET e == EntByName(s, n) IN Range(e.supers) \cup UNION {Ancestors(s, e.supers[i]) : i \in 1..Len(e.supers)}
+Dev_PyCtorRepeatsSharedAncestor(s, n) ==
+  LET e == EntByName(s, n) IN
+  \E i, j \in 1..Len(e.supers) : i # j /\ (Ancestors(s, e.supers[i]) \cup {e.supers[i]}) \cap (Ancestors(s, e.supers[j]) \cup {e.supers[j]}) # {}
 =============================================================================
